@@ -465,13 +465,38 @@ def run(chk, repo):
     chk.decide(ok, "C20.unwrap", WA("unwrap"), "correction guard: " + (unparse(ifs[0].test) if ifs else "?"),
                why="samples are corrected only for jumps strictly above max_delta", node=lp)
     if ifs:
-        aug = ifs[0].body[0] if len(ifs[0].body) == 1 else None
+        # temporaries of the guarded block are written out first
+        gb = list(ifs[0].body)
+        tmp_env = {}
+        while len(gb) > 1 and isinstance(gb[0], ast.Assign) and len(gb[0].targets) == 1 and isinstance(gb[0].targets[0], ast.Name) \
+                and gb[0].targets[0].id not in ("delta", "d_diff", "d0", d1):
+            class _S(ast.NodeTransformer):
+                def visit_Name(self, n_):
+                    if isinstance(n_.ctx, ast.Load) and n_.id in tmp_env:
+                        return ast.parse(unparse(tmp_env[n_.id]), mode="eval").body
+                    return n_
+            tmp_env[gb[0].targets[0].id] = _S().visit(ast.parse(unparse(gb[0].value), mode="eval").body)
+            gb = gb[1:]
+        aug = gb[0] if len(gb) == 1 else None
+        if isinstance(aug, ast.AugAssign) and tmp_env:
+            aug = ast.AugAssign(target=aug.target, op=aug.op, value=_S().visit(ast.parse(unparse(aug.value), mode="eval").body))
+            ast.fix_missing_locations(aug)
         ok = isinstance(aug, ast.AugAssign) and unparse(aug.target) == "delta" and isinstance(aug.op, ast.Add)
         if ok:
             v = aug.value
             ok = isinstance(v, ast.BinOp) and isinstance(v.op, ast.Add)
             if ok:
-                neg, mn = (v.left, v.right) if isinstance(v.right, ast.Call) else (v.right, v.left)
+                neg, mn = (v.left, v.right) if isinstance(v.right, (ast.Call, ast.IfExp)) else (v.right, v.left)
+                if isinstance(mn, ast.IfExp):
+                    # A if abs(A) < abs(B) else B  (any spelling that picks the smaller magnitude): read as min(.., key=abs)
+                    from ..dtable import Facts as _F, holds as _holds
+                    a_, b_ = mn.body, mn.orelse
+                    pick = {}
+                    for va, vb in ((1, 2), (2, 1)):
+                        r_ = _holds(mn.test, _F(values={"abs(%s)" % unparse(a_): va, "abs(%s)" % unparse(b_): vb}))
+                        pick[(va, vb)] = None if r_ not in (True, False) else (a_ if r_ else b_)
+                    if pick[(1, 2)] is a_ and pick[(2, 1)] is b_:
+                        mn = ast.parse("min(%s, %s, key=abs)" % (unparse(a_), unparse(b_)), mode="eval").body
                 ok = Evaluator().ev(neg) == -RF.sym("d_diff") and isinstance(mn, ast.Call) and unparse(mn.func) == "min" \
                     and len(mn.args) == 2
                 if ok:
